@@ -17,6 +17,16 @@ def pretestArg1 : Nat := 1
 def pretestArg2 : Nat := 0
 def scanTreatAsStolen (isRight stolen bodyNeLeftSum : Bool) : Bool := (isRight && (stolen || bodyNeLeftSum))
 def scanGuardReadsLeftSum (isRight stolen bodyNeLeftSum : Bool) : Bool := (false || (isRight && (false || (!stolen && true))))
+def scanFinishJoins (zombie ss : Bool) : Bool := (zombie && ss)
+def scanFinishJoinRecvSlot : Bool := true
+def scanKeeps (zombie right : Bool) : Bool := (zombie || right)
+def scanResetsLeftIsFinal (left : Bool) : Bool := left
+def scanNodeJoinRecvLeftSum : Bool := true
+def scanLeafCond (isRight tas divisible exec : Bool) : Bool := (((isRight && (!tas)) || (!divisible)) || exec)
+def scanLeafMode (isFinal ss : Bool) : Nat := if isFinal then 2 else if ss then 1 else 0
+def scanLeafWritesSlot (ss : Bool) : Bool := ss
+def scanStolenClearsFinal : Bool := true
+def scanPass2Skeleton : Bool := true
 def reduceSplitsBody (isRight : Bool) (parentRef : Nat) (stolen : Bool) : Bool := (isRight && (parentRef == 2))
 
 end TbbVerif.Generated.C06
